@@ -63,6 +63,7 @@ type Point struct {
 	N      int    // number of alternatives
 	Chosen int    // alternative taken
 	Label  string // "sched" or the Choose label
+	Free   bool   // alternatives do not count as deviations (outer loops: fault position, parameter)
 }
 
 // Crash describes a panic (or modelled fatal error) that escaped a thread.
@@ -391,7 +392,7 @@ func (r *rt) pick(cur *Thread) *Thread {
 		if len(enabled) == 1 {
 			return enabled[0]
 		}
-		c, ok := r.choose(len(enabled), "sched")
+		c, ok := r.choose(len(enabled), "sched", false)
 		if !ok {
 			return nil
 		}
@@ -400,7 +401,7 @@ func (r *rt) pick(cur *Thread) *Thread {
 }
 
 // choose answers one choice point with n alternatives.
-func (r *rt) choose(n int, label string) (int, bool) {
+func (r *rt) choose(n int, label string, free bool) (int, bool) {
 	if !r.exploring {
 		return 0, true
 	}
@@ -415,7 +416,7 @@ func (r *rt) choose(n int, label string) (int, bool) {
 		}
 	}
 	r.pos++
-	r.points = append(r.points, Point{N: n, Chosen: c, Label: label})
+	r.points = append(r.points, Point{N: n, Chosen: c, Label: label, Free: free})
 	r.mix(uint64(n), uint64(c), hashString(label))
 	return c, true
 }
@@ -524,7 +525,25 @@ func Choose(n int, label string) int {
 	if r == nil || r.aborting || n <= 1 {
 		return 0
 	}
-	c, ok := r.choose(n, label)
+	c, ok := r.choose(n, label, false)
+	if !ok {
+		panic(abortSentinel)
+	}
+	return c
+}
+
+// ChooseFree is a choice point whose alternatives are all explored without
+// counting as deviations (exhaustive outer loops such as the position and the
+// kind of an injected fault). It is recorded even before Explore().
+func ChooseFree(n int, label string) int {
+	r := R
+	if r == nil || r.aborting || n <= 1 {
+		return 0
+	}
+	was := r.exploring
+	r.exploring = true
+	c, ok := r.choose(n, label, true)
+	r.exploring = was
 	if !ok {
 		panic(abortSentinel)
 	}
